@@ -370,6 +370,11 @@ func installMulti(vm *otto.Otto) {
 		return v
 	}))
 	must(vm.Set("hf", func(call otto.FunctionCall) otto.Value { return otto.UndefinedValue() }))
+	must(vm.Set("hctx", func(call otto.FunctionCall) otto.Value {
+		ctx := call.Otto.Context()
+		_ = ctx.Symbols
+		return otto.UndefinedValue()
+	}))
 	rethrow := func(call otto.FunctionCall, err error) {
 		panic(call.Otto.MakeCustomError("HostError", err.Error()))
 	}
